@@ -210,10 +210,19 @@ void run_grammar(c02::runner &_r, long long const _g, char const *const _skname,
   for (auto const &in : _inputs)
   {
     c02::probe_log().clear();
+    c02::arm_watchdog();
     vj::begin_call(c02::prefix(_g, _skname, c02::ch_id<Ch>(), "string", in));
-    c02::log_result<Ch>(p::grammar_parse_string(c02::to_string<Ch>(in), grammar));
+    try
+    {
+      c02::log_result<Ch>(p::grammar_parse_string(c02::to_string<Ch>(in), grammar));
+    }
+    catch (...)
+    {
+      c02::log_escaped();
+    }
     ++_r.records;
     c02::probe_log().clear();
+    c02::arm_watchdog();
     vj::begin_call(c02::prefix(_g, _skname, c02::ch_id<Ch>(), "stream", in));
     std::basic_istringstream<Ch> stream{c02::to_string<Ch>(in)};
     stream.unsetf(std::ios_base::skipws);
@@ -301,6 +310,12 @@ try
   {
     run_grammar<char, json_grammar<char>>(r, 9004, "space", json_inputs);
     if (wide) run_grammar<wchar_t, json_grammar<wchar_t>>(r, 9004, "space", json_inputs);
+  }
+  {
+    // before the process winds down (leak check at exit): no watchdog any more
+    itimerval t{};
+    ::setitimer(ITIMER_PROF, &t, nullptr);
+    ::alarm(0);
   }
   vj::close();
   return 0;
